@@ -175,6 +175,10 @@ func (reorg *Reorg) Read(buf *bytes.Buffer) error {
 		return err
 	}
 
+	// Each block takes at least a header and a tx count.
+	if uint64(count)*(wire.MaxBlockHeaderPayload+4) > uint64(buf.Len()) {
+		return errors.New("Invalid reorg block count")
+	}
 	reorg.Blocks = make([]ReorgBlock, count)
 	for i, _ := range reorg.Blocks {
 		if err := reorg.Blocks[i].Read(buf); err != nil {
@@ -215,6 +219,9 @@ func (block *ReorgBlock) Read(buf *bytes.Buffer) error {
 		return err
 	}
 
+	if uint64(count)*bitcoin.Hash32Size > uint64(buf.Len()) {
+		return errors.New("Invalid reorg tx count")
+	}
 	block.TxIds = make([]bitcoin.Hash32, count)
 	for i, _ := range block.TxIds {
 		if _, err := buf.Read(block.TxIds[i][:]); err != nil {
